@@ -6,7 +6,7 @@ Three layers, all executable:
 
 1. **Codec** — `peerCommand.marshal` / `unmarshal` on Go strings, i.e. byte sequences
    (`Bytes = List UInt8`; Go indexes bytes, and `','`, `'R'`, `'U'` are single bytes).
-   `unmarshal` is transcribed operation for operation: `strings.Index(msg, ",")`, the
+   `unmarshal` is transcribed operation for operation: `strings.LastIndex(msg, ",")`, the
    `len(msg) < 2 || idx == -1` guard, the action byte, `msgData[:idx-1]`, `msgData[idx:]`.
 2. **One node** — the `generics.MapWithTTL[string,string]` of peers (id ↦ address, expiration)
    with the comparison of `mapttl.go` as written (`Expiration.Before(now)`), driven by
@@ -52,16 +52,20 @@ def comma : UInt8 := 44
 /-- `string(p.action) + p.address + "," + p.id` -/
 def marshal (c : Cmd) : Bytes := c.action.byte :: (c.address ++ comma :: c.id)
 
-/-- `strings.Index(msg, string(b))`; `none` is Go's `-1` -/
-def indexOf (b : UInt8) : Bytes → Option Nat
+/-- `strings.LastIndex(msg, string(b))`; `none` is Go's `-1` -/
+def lastIndexOf (b : UInt8) : Bytes → Option Nat
   | [] => none
-  | x :: t => if x = b then some 0 else (indexOf b t).map (· + 1)
+  | x :: t =>
+    match lastIndexOf b t with
+    | some i => some (i + 1)
+    | none => if x = b then some 0 else none
 
-/-- `peerCommand.unmarshal`: `none` is `return false`.  The slices are taken only in the `R`/`U`
-branch, exactly as in the code, so `idx - 1` is never evaluated at `idx = 0` (then the first byte
-is the comma itself and the action switch has already returned false). -/
+/-- `peerCommand.unmarshal`: `none` is `return false`.  The message is split at its **last** comma
+(the id is the last field; the address may contain commas).  The slices are taken only in the
+`R`/`U` branch, exactly as in the code, so `idx - 1` is never evaluated at `idx = 0` (then the
+first byte is the only comma and the action switch has already returned false). -/
 def unmarshal (msg : Bytes) : Option Cmd :=
-  match indexOf comma msg with
+  match lastIndexOf comma msg with
   | none => none
   | some idx =>
     if msg.length < 2 then none
